@@ -452,3 +452,44 @@ def r4(cx):
         if not hit:
             cx.violation(root, 'no-read-eval-loop', '%s does not run its input through the read-eval loop (RunReadEvalLoop)' % root,
                          loc=bodies[0].loc(bodies[0].d))
+
+
+# ---------------------------------------------------------------------------------------
+# C18.R1b - every read on a descriptor that other commands also read is one byte long
+READ_SITES = {
+    # function (root) -> class
+    'yash_builtin::read::input::read_char': 'one-byte',
+    '<yash_env::input::fd_reader_2::FdReader2<S> as yash_env::input::Input>::next_line': 'one-byte',
+    'yash_env::system::concurrency::<impl yash_env::system::io::Read for alloc::rc::Rc<yash_env::system::concurrency::Concurrent<S>>>::read': 'delegate',
+    '<alloc::rc::Rc<S> as yash_env::system::io::Read>::read': 'delegate',
+    '<yash_env::system::concurrency::Concurrent<S> as yash_env::system::concurrency::rw_all::ReadAll>::read_all_to': 'bulk-private',
+}
+
+
+@RS.rule('C18.R1b', 'K-EFFECT', 'every reader of a shared descriptor (script input, the read built-in) asks the system for exactly one byte at a time')
+def r1b(cx):
+    F = cx.F
+    sites = F.callers_of(lambda names, t: Q.callee_is(t, ['*::Read::read']))
+    cx.floor(len(sites), 4, 'Read::read call sites')
+    for b, blk, t in sites:
+        cls = READ_SITES.get(b.root)
+        cx.site('%s: read at %s -> %s' % (b.root, b.loc(t), cls))
+        cx.fn(b.root)
+        if cls is None:
+            cx.violation(b.root, 'unclassified-reader', 'a new reader of a file descriptor: if the descriptor is shared with the commands the '
+                         'shell runs (standard input, a script file) it must read one byte at a time so that nothing beyond the current '
+                         'line/character is consumed', loc=b.loc(t))
+            continue
+        if cls != 'one-byte':
+            continue
+        du = Q.DefUse(b)
+        src = Q.value_source(b, du, t['a'][2])
+        ok = src is not None and Q.callee_is(src, [Q.re.compile(r'^core::slice::(raw::)?from_mut$')])
+        if ok:
+            # the argument of from_mut is a single u8 place (a local or one array element), not a sub-slice
+            at = src.get('at', [''])[0]
+            ok = at.replace(' ', '') in ('&mutu8',)
+        if not ok:
+            cx.violation(b.root, 'multi-byte-read', 'the buffer handed to read() is not a one-byte slice (slice::from_mut of a u8): more than the '
+                         'current character/line can be consumed from a descriptor that the next command or `read` also reads',
+                         loc=b.loc(t))
